@@ -346,6 +346,30 @@ func catalogue2() []recipe {
 			return true
 		}
 	}
+	// individually legal output values whose total wraps around 2^64 back to exactly the input value (a running total
+	// that is only range-checked at the end, or in 64-bit arithmetic without a per-step check, does not see it)
+	add("tx:output-sum-wraps-2^64", E, "bs:bad-output-value", func(x *ctx, d *chaingen.Draft) bool {
+		c, ok := x.trueCoin()
+		if !ok || c.Coin.Amount <= 0 {
+			return false
+		}
+		const maxSat = int64(21e14)
+		tx := wire.NewMsgTx(1)
+		tx.AddTxIn(&wire.TxIn{PreviousOutPoint: c.Op, Sequence: 0xffffffff})
+		var sum uint64
+		for sum+uint64(maxSat) > sum { // until the next full-value output would wrap
+			tx.AddTxOut(&wire.TxOut{Value: maxSat, PkScript: []byte{0x6a}})
+			sum += uint64(maxSat)
+		}
+		// sum is now within maxSat of 2^64: the last output lands the wrapped total on the input amount
+		last := uint64(c.Coin.Amount) - sum // modulo 2^64
+		if last == 0 || last > uint64(maxSat) {
+			return false
+		}
+		tx.AddTxOut(&wire.TxOut{Value: int64(last), PkScript: []byte{0x51}})
+		d.Msg.Transactions = append(d.Msg.Transactions, tx)
+		return true
+	})
 	add("witness:two-commitments-last-correct", V, "", commit(false, false))
 	add("witness:two-commitments-last-wrong", E, "bc:witness-commitment", commit(true, false))
 	add("witness:long-commitments-last-correct", V, "", commit(false, true))
@@ -356,7 +380,7 @@ func catalogue2() []recipe {
 // ---------------------------------------------------------------------------------------------
 // height-gated rules
 
-type gates struct{ bip34, bip66, bip65, csv int32 }
+type gates struct{ bip34, bip66, bip65, csv, taproot int32 }
 
 func gatesParams(p *chaincfg.Params, g gates) {
 	p.Name = "verif-gates"
@@ -504,6 +528,77 @@ func gatesCatalogue() []recipe {
 		lab(x, false, V, "")
 		return true
 	})
+	return rs
+}
+
+// taprootGateCatalogue: taproot becomes active at gates.taproot (segwit is active throughout). Before that height a
+// witness-v1 32-byte output is an unencumbered unknown witness program: any spend of it is valid, whatever the witness.
+func taprootGateCatalogue() []recipe {
+	V, C := refchain.Valid, refchain.InvalidConnect
+	var rs []recipe
+	gate := func(g *gates) int32 { return g.taproot }
+	lab := func(x *ctx, d *chaingen.Draft) {
+		if d.Height >= x.gates.taproot {
+			x.ovLabel, x.ovRule, x.ov = C, "cv:script", true
+		} else {
+			x.ovLabel, x.ovRule, x.ov = V, "", true
+		}
+	}
+	rs = append(rs, recipe{name: "gate:taproot-v1-output-spent-with-empty-witness", label: V, gate: gate, apply: func(x *ctx, d *chaingen.Draft) bool {
+		c, ok := x.trueCoin()
+		if !ok {
+			return false
+		}
+		prog := append([]byte{0x51, 0x20}, x.r.Bytes(32)...)
+		t1 := wire.NewMsgTx(2)
+		t1.AddTxIn(&wire.TxIn{PreviousOutPoint: c.Op, Sequence: 0xffffffff})
+		t1.AddTxOut(&wire.TxOut{Value: c.Coin.Amount, PkScript: prog})
+		t2 := wire.NewMsgTx(2)
+		t2.AddTxIn(&wire.TxIn{PreviousOutPoint: childOf(t1, 0), Sequence: 0xffffffff})
+		t2.AddTxOut(&wire.TxOut{Value: c.Coin.Amount, PkScript: []byte{txscript.OP_TRUE}})
+		d.Msg.Transactions = append(d.Msg.Transactions, t1, t2)
+		lab(x, d)
+		return true
+	}})
+	rs = append(rs, recipe{name: "gate:taproot-key-spend-with-corrupted-signature", label: V, gate: gate, apply: func(x *ctx, d *chaingen.Draft) bool {
+		c, ok := x.coinOfKind(func(c chaingen.Spendable) bool { return len(c.Coin.PkScript) == 34 && c.Coin.PkScript[0] == 0x51 })
+		if !ok {
+			// no taproot coin at hand: create one in this block
+			base, ok2 := x.anyCoin()
+			if !ok2 {
+				return false
+			}
+			pk := x.g.Script(chaingen.KP2TR, x.r.Intn(4), x.r)
+			t1 := x.spend(base, 0, func(tx *wire.MsgTx) { tx.TxOut[0].PkScript = pk })
+			d.Msg.Transactions = append(d.Msg.Transactions, t1)
+			c = chaingen.Spendable{Op: childOf(t1, 0), Coin: refchain.Coin{Amount: t1.TxOut[0].Value, PkScript: pk, Height: d.Height}}
+		}
+		tx := x.spend(c, 0, nil)
+		w := append([]byte{}, tx.TxIn[0].Witness[0]...)
+		w[len(w)/2] ^= 0x04
+		tx.TxIn[0].Witness[0] = w
+		d.Msg.Transactions = append(d.Msg.Transactions, tx)
+		lab(x, d)
+		return true
+	}})
+	rs = append(rs, recipe{name: "gate:taproot-valid-key-spend", label: V, apply: func(x *ctx, d *chaingen.Draft) bool {
+		c, ok := x.coinOfKind(func(c chaingen.Spendable) bool { return len(c.Coin.PkScript) == 34 && c.Coin.PkScript[0] == 0x51 })
+		if !ok {
+			return false
+		}
+		addTx(d, x.spend(c, 0, nil), 0)
+		x.ovLabel, x.ovRule, x.ov = V, "", true
+		return true
+	}})
+	rs = append(rs, recipe{name: "gate:taproot-plain-valid", label: V, apply: func(x *ctx, d *chaingen.Draft) bool {
+		c, ok := x.anyCoin()
+		if !ok {
+			return false
+		}
+		addTx(d, x.spend(c, 0, nil), 0)
+		x.ovLabel, x.ovRule, x.ov = V, "", true
+		return true
+	}})
 	return rs
 }
 
